@@ -1,6 +1,6 @@
 ---- MODULE SrThunkMC ----
 (* Instance of SrThunk that exports every transition with its label (schedule-point site or tau). *)
-EXTENDS SrThunk, Json, IOUtils, TLCExt
+EXTENDS SrThunk, Sequences, Json, IOUtils, TLCExt
 EdgeLog ==
   LET rec == [s |-> <<TLCFP(core), TLCFP(<<core, 1>>)>>, t |-> <<TLCFP(core'), TLCFP(<<core', 1>>)>>, lab |-> lab',
               init |-> (lab = "init"), fin |-> AllEnded']
